@@ -231,10 +231,10 @@ theorem ltV_sim {l l' r r' : V} (hl : SimV l l') (hr : SimV r r') : ltV l r = lt
     · rw [ltV_nodes_right, ltV_nodes_right]
   · rw [ltV_nodes_left, ltV_nodes_left]
 
-theorem pyEqVJ_sim {a b : V} (h : SimV a b) (elem : J) : pyEqVJ a elem = pyEqVJ b elem := by
+theorem pyEqVJ_sim {a b : V} (h : SimV a b) (elem : J) : eqVJ a elem = eqVJ b elem := by
   rcases h.cases with rfl | ⟨ns1, ns2, rfl, rfl, hv⟩
   · rfl
-  · simp only [pyEqVJ, map_val_isEmpty hv]
+  · simp only [eqVJ]
 
 theorem containsV_nodes (ns : List Node) (item : V) : containsV (.nodes ns) item = some false := by
   simp [containsV]
@@ -242,7 +242,7 @@ theorem containsV_nodes (ns : List Node) (item : V) : containsV (.nodes ns) item
 theorem containsV_sim_item (c : V) {a b : V} (h : SimV a b) : containsV c a = containsV c b := by
   rcases h.cases with rfl | ⟨ns1, ns2, rfl, rfl, hv⟩
   · rfl
-  · have hp : pyEqVJ (.nodes ns1) = pyEqVJ (.nodes ns2) :=
+  · have hp : eqVJ (.nodes ns1) = eqVJ (.nodes ns2) :=
       funext (fun e => pyEqVJ_sim (a := .nodes ns1) (b := .nodes ns2) hv e)
     cases c with
     | val j => cases j <;> simp [containsV, hp]
